@@ -310,7 +310,7 @@ func (m *Machine) pickTransition() (next *goroutine, ok bool) {
 		}
 	}
 	p.sleep = ns
-	if noSleepSets {
+	if noSleepSets || m.P.Params["NOSLEEP"] == 1 {
 		p.sleep = nil
 	}
 	p.schedSteps++
